@@ -3,6 +3,7 @@ package engine
 import (
 	"net/http"
 	"strings"
+	"sync"
 	"sync/atomic"
 	"time"
 
@@ -336,10 +337,22 @@ func (bs *baseServer) Handshake(transportName string, ctx *types.HttpContext) (*
 	bs.clients.Store(id, socket)
 	bs.clientsCount.Add(1)
 
-	socket.Once("close", func(...any) {
-		bs.clients.Delete(id)
-		bs.clientsCount.Add(^uint64(0))
-	})
+	var forget sync.Once
+	onClose := func(...any) {
+		forget.Do(func() {
+			bs.clients.Delete(id)
+			bs.clientsCount.Add(^uint64(0))
+		})
+	}
+	socket.Once("close", onClose)
+
+	if socket.ReadyState() == "closed" {
+		// the transport died while the session was being set up: its close event was
+		// emitted before the listener existed, so unregister it here and do not
+		// announce a session that is already closed
+		onClose()
+		return nil, transport
+	}
 
 	bs.Emit("connection", socket)
 
